@@ -116,7 +116,8 @@ def shard_exotic(args):
     at / next to a run boundary, the ends, or their negative twins; +, * and join with themselves."""
     tier, seed, idx = args
     acc = Acc(seed=seed)
-    specs = C.exotic_specs()
+    specs = C.exotic_specs() + C.huge_specs()
+    nsmall = len(C.exotic_specs())
     for si in range(idx, len(specs), 16):
         spec = specs[si]
         f = C.build(spec)
@@ -124,7 +125,7 @@ def shard_exotic(args):
         text = "".join(c for c, _ in fc)
         n = len(fc)
         snap = C.snapshot(f)
-        pts = C.boundary_points(spec)
+        pts = C.boundary_points(spec) if si < nsmall else C.few_points(spec)
         shown = C.show_spec(spec)
         if C.cells(f) != fc or len(f) != n or f.s != text:
             acc.failure("C06:len_or_text", {"f": shown}, "")
